@@ -3,6 +3,7 @@ package abs
 import (
 	"encoding/json"
 	"fmt"
+	"math"
 	"reflect"
 )
 
@@ -31,6 +32,8 @@ func numRep(n int, rep string) reflect.Value {
 	switch rep {
 	case "jsonNumber":
 		return reflect.ValueOf(json.Number(info.Exact))
+	case "negzero":
+		return reflect.ValueOf(math.Copysign(0, -1))
 	case "jsonNumberE": // another spelling of the same number
 		return reflect.ValueOf(json.Number(info.Exact + "e0"))
 	}
